@@ -258,6 +258,14 @@ func TestTimePeriod(t *testing.T) {
 		if rapid.Bool().Draw(t, "small") {
 			secs = secs%(48*3600) + 1
 		}
+		if g := rapid.SampledFrom([]int64{0, 0, 0, 60, 3600, 86400}).Draw(t, "endsJustBeforeBoundary"); g != 0 {
+			// clock-aware: the period ends in the last second before a minute / hour / day boundary
+			// (UTC) - with the sub-second part of the current time it is rounded across that boundary
+			// half of the time
+			now := time.Now().UTC().Unix()
+			secs = (g - now%g - 1) + g*int64(rapid.IntRange(1, 3).Draw(t, "boundariesAhead"))
+			world.Label(fmt.Sprintf("timeperiod/ends-before-%ds-boundary", g))
+		}
 		d := time.Duration(secs) * time.Second
 		viaCtor := rapid.Bool().Draw(t, "ctor")
 		var tp *model.TimePeriodType
